@@ -52,6 +52,9 @@ def object_bytes(d, njobs):
     return bytes((17 * d + 7 * i + 1) % 251 for i in range(size))
 
 
+_MISSING = object()
+
+
 class JoinHandle:
     """What ProcessPoolDownloader keeps in _submitter / _workers: join() only."""
 
@@ -372,43 +375,82 @@ class Run:
         # monitor call is preceded by a yield point of the facade anyway)
         getattr(self.real_monitor, names.find_attr(self.real_monitor, names.lock_like, '_init_lock')).post_yield = False
         self.monitor = LoggingMonitor(self, self.real_monitor)
-        self.reqq = ShimQueue(self, 'reqq')
-        self.jobq = ShimQueue(self, 'jobq')
         config = m.ProcessTransferConfig(multipart_threshold=THRESHOLD, multipart_chunksize=CHUNK,
                                          max_request_processes=case['workers'])
         factory = Factory()
-        submitter = m.GetObjectSubmitter(
-            transfer_config=config, client_factory=factory, transfer_monitor=self.monitor,
-            osutil=osutil, download_request_queue=self.reqq, worker_queue=self.jobq)
 
-        def run_process(proc):
-            # BaseS3TransferProcess.run without the signal handling
-            proc._client = proc._client_factory.create_client()
-            proc._do_run()
-        ts = self.sched.spawn(lambda: run_process(submitter), 'submitter', role='process')
-        handles = []
-        for w in range(case['workers']):
-            worker = m.GetObjectWorker(queue=self.jobq, client_factory=factory,
-                                       transfer_monitor=self.monitor, osutil=osutil)
-            tw = self.sched.spawn((lambda wk: (lambda: run_process(wk)))(worker), f'worker{w}', role='process')
-            handles.append(JoinHandle(self.sched, tw, f'worker{w}'))
+        # ---- The downloader is built by its PUBLIC constructor and started by its own start-up
+        # code; nothing of it is set by (private) name.  What would fork or talk to the OS is
+        # replaced at module level for the run: multiprocessing.Queue -> FIFO shim queues (the
+        # first one created is the request queue, the second the job queue, as in __init__),
+        # OSUtils -> the fault-injecting one, ClientFactory -> the fake S3, the manager that
+        # serves the TransferMonitor -> a stand-in handing out the logging facade of the REAL
+        # monitor, signal -> a no-op, Process.start/join -> a cooperative thread running the
+        # process's own run() and a join on it.
+        queues = []
+
+        def new_queue(maxsize=0):
+            q = ShimQueue(R, ['reqq', 'jobq'][len(queues)] if len(queues) < 2 else f'q{len(queues)}')
+            queues.append(q)
+            return q
+
+        class MP:
+            Queue = staticmethod(new_queue)
+
+            def __getattr__(self_, name):
+                return getattr(self.mp_real, name)
 
         class Manager:
+            def start(self_, initializer=None, initargs=()):
+                pass
+
+            def TransferMonitor(self_):
+                return R.monitor
+
             def shutdown(self_):
                 R.log('manager_shutdown')
 
-        dl = m.ProcessPoolDownloader.__new__(m.ProcessPoolDownloader)
-        dl._client_factory = factory
-        dl._transfer_config = config
-        dl._download_request_queue = self.reqq
-        dl._worker_queue = self.jobq
-        dl._osutil = osutil
-        dl._started = True              # _start() forks processes: replaced by the spawns above
-        dl._start_lock = self.shim.Lock()
-        dl._manager = Manager()
-        dl._transfer_monitor = self.monitor
-        dl._submitter = JoinHandle(self.sched, ts, 'submitter')
-        dl._workers = handles
+        class Signal:
+            SIGINT, SIG_IGN = 2, 1
+
+            @staticmethod
+            def signal(signum, handler):
+                return None
+        handles = {}
+        counter = {'w': 0}
+
+        def proc_start(proc):
+            if isinstance(proc, m.GetObjectSubmitter):
+                name = 'submitter'
+            else:
+                name = f'worker{counter["w"]}'
+                counter['w'] += 1
+            t = R.sched.spawn(proc.run, name, role='process')
+            handles[id(proc)] = JoinHandle(R.sched, t, name)
+
+        def proc_join(proc, timeout=None):
+            h = handles.get(id(proc))
+            if h is not None:
+                h.join()
+        self.mp_real = m.multiprocessing
+        self.module_patches = []
+
+        def patch(obj, name, new):
+            self.module_patches.append((obj, name, obj.__dict__.get(name, _MISSING)))
+            setattr(obj, name, new)
+        patch(m, 'multiprocessing', MP())
+        patch(m, 'OSUtils', lambda: osutil)
+        patch(m, 'ClientFactory', lambda client_kwargs=None: factory)
+        patch(m, 'TransferMonitorManager', Manager)
+        patch(m, 'signal', Signal)
+        patch(m.BaseS3TransferProcess, 'start', proc_start)
+        patch(m.BaseS3TransferProcess, 'join', proc_join)
+        dl = m.ProcessPoolDownloader(config=config)
+        if len(queues) >= 2:
+            self.reqq, self.jobq = queues[0], queues[1]
+        else:
+            raise common.BuildBroken('ProcessPoolDownloader() no longer creates its two queues with multiprocessing.Queue: '
+                                     'the in-process replay of the pool no longer applies', '')
         self.downloader = dl
         self.futures = {}
         self.results = {}
@@ -564,6 +606,14 @@ class Run:
             self.final_dest = {d: self.read(p) for d, p in self.dests.items()}
             self.final_checks()
         finally:
+            for obj, name, old in reversed(getattr(self, 'module_patches', [])):
+                if old is _MISSING:
+                    try:
+                        delattr(obj, name)
+                    except AttributeError:
+                        pass
+                else:
+                    setattr(obj, name, old)
             m.threading = self.saved[0]
             if self.saved[1] is None:
                 del m.__dict__['open']
@@ -1138,24 +1188,21 @@ def single_start(ctx):
         saved_threading = m.threading
         m.threading = shim
         starts = {'manager': 0, 'submitter': 0, 'workers': 0}
+        patches = []
+
+        def patch(obj, name, new):
+            patches.append((obj, name, obj.__dict__.get(name, _MISSING)))
+            setattr(obj, name, new)
         try:
-            dl = m.ProcessPoolDownloader()
-            stubs = {}
-            for nm, key in (('_start_transfer_monitor_manager', 'manager'), ('_start_submitter', 'submitter'),
-                            ('_start_get_object_workers', 'workers')):
-                if not hasattr(dl, nm):
-                    ctx.notes.append(f'single-start scenario skipped: ProcessPoolDownloader has no {nm}')
-                    return
-
-                def stub(key=key):
-                    starts[key] += 1
-                    sched.yield_point('start.' + key)
-                setattr(dl, nm, stub)
-
             class Q:
                 def put(self_, item):
                     sched.yield_point('reqq.put')
-            dl._download_request_queue = Q()
+
+            class MP:
+                Queue = staticmethod(lambda maxsize=0: Q())
+
+                def __getattr__(self_, name):
+                    return getattr(real_mp, name)
 
             class Mon:
                 def __init__(self_):
@@ -1164,7 +1211,29 @@ def single_start(ctx):
                 def notify_new_transfer(self_):
                     self_.n += 1
                     return self_.n
-            dl._transfer_monitor = Mon()
+            mon = Mon()
+
+            class Manager:
+                def start(self_, initializer=None, initargs=()):
+                    starts['manager'] += 1
+                    sched.yield_point('start.manager')
+
+                def TransferMonitor(self_):
+                    return mon
+
+                def shutdown(self_):
+                    pass
+
+            def proc_start(proc):
+                starts['submitter' if isinstance(proc, m.GetObjectSubmitter) else 'workers'] += 1
+                sched.yield_point('start.process')
+            real_mp = m.multiprocessing
+            patch(m, 'multiprocessing', MP())
+            patch(m, 'TransferMonitorManager', Manager)
+            patch(m, 'ClientFactory', lambda client_kwargs=None: None)
+            patch(m.BaseS3TransferProcess, 'start', proc_start)
+            patch(m.BaseS3TransferProcess, 'join', lambda proc, timeout=None: None)
+            dl = m.ProcessPoolDownloader(config=m.ProcessTransferConfig(max_request_processes=1))
             errs = []
 
             def user(k):
@@ -1179,6 +1248,14 @@ def single_start(ctx):
             except (core.Deadlock, core.Livelock) as e:
                 errs.append(repr(e))
         finally:
+            for obj, name, old in reversed(patches):
+                if old is _MISSING:
+                    try:
+                        delattr(obj, name)
+                    except AttributeError:
+                        pass
+                else:
+                    setattr(obj, name, old)
             m.threading = saved_threading
         n_runs += 1
         ctx.count('pool-single-start', 1, nontrivial_key=tuple(sched.choices))
